@@ -89,6 +89,14 @@ func genC11() *rapid.Generator[c11Case] {
 			p.Exists = rapid.IntRange(0, 4).Draw(t, "exists") == 0
 			p.Policy = rapid.IntRange(0, 2).Draw(t, "policy")
 			c.Pods = append(c.Pods, p)
+			// a sibling whose name (hence key) has this pod's name as a string prefix: web-1 / web-10, a / a0
+			if len(p.Name) < 40 && rapid.IntRange(0, 3).Draw(t, "prefixSibling") == 0 && !seen[p.Ns+"/"+p.Name+"0"] {
+				q := p
+				q.Name = p.Name + "0"
+				seen[q.Ns+"/"+q.Name] = true
+				q.Exists = rapid.Bool().Draw(t, "siblingExists")
+				c.Pods = append(c.Pods, q)
+			}
 		}
 		c.Size = rapid.IntRange(-1, 10000).Draw(t, "size")
 		if rapid.IntRange(0, 2).Draw(t, "smallSize") > 0 {
@@ -245,6 +253,34 @@ func checkC11(c c11Case, r *vcore.Rec) *vcore.Failure {
 	r.ClassIf(len(kinds) >= 3, "three_owner_kinds")
 	if len(kinds) >= 3 && pages >= 2 {
 		r.NonTrivial()
+	}
+	// (c') an entry posted with the IP of ANOTHER owner (a stale list page: the IP changed hands) releases nothing
+	crossed := 0
+	for i := 0; i < len(entries) && crossed < 8; i++ {
+		for j := 0; j < len(entries) && crossed < 8; j++ {
+			ka, okA := owner[entries[i].IP]
+			kb, okB := owner[entries[j].IP]
+			if i == j || !okA || !okB || ka == kb {
+				continue
+			}
+			if !strings.HasPrefix(kb, ka) && crossed >= 4 {
+				continue // prefer pairs whose keys are related, take a few unrelated ones too
+			}
+			crossed++
+			m := entries[i]
+			m.IP = entries[j].IP
+			before := w.Snap()
+			req, _ := json.Marshal(api.ReleaseIPReq{IPs: []api.FloatingIP{m}})
+			code, body := x.HTTP("POST", "/v1/ip", req)
+			after := w.Snap()
+			for ip, f := range before.Alloc {
+				if g, ok := after.Alloc[ip]; !ok || g.Key != f.Key {
+					return vcore.Failf("c11:other_owner", "posting the entry of %q with the IP %s of %q (HTTP %d %s) released or re-keyed %s", ka,
+						m.IP, kb, code, strings.TrimSpace(body), ip)
+				}
+			}
+			r.ClassIf(strings.HasPrefix(kb, ka), "crossed_entry_prefix_related")
+		}
 	}
 	// (c)(d) list -> release differential
 	sort.Slice(entries, func(i, j int) bool { return entries[i].IP < entries[j].IP })
